@@ -17,7 +17,8 @@ VARIABLES hist, ps
 vars == <<hist, ps>>
 
 Schema ==
-  << DInt("i", "7"), DStr("s", "d"), DFunc("fn", "user"), DFunc("ev", "eval"), DFunc("include", "include") >>
+  << DInt("i", "7"), DStr("s", "d"), DFunc("fn", "user"), DFunc("ev", "eval"), DFunc("include", "include"),
+     DFunc("evs", "evalself") >>
 
 F(n) == "$R/" \o n \o ".conf"
 File(toks) == [kind |-> "file", toks |-> toks]
@@ -32,16 +33,18 @@ FS ==
   (F("fb")  :> File(Ev("tB") \o <<NL(TkStr("s")), TkP("="), TkStr("x")>>)) @@
   (F("fd")  :> File(Ev("tD") \o <<NL(TkStr("s")), TkP("="), TkStr("y")>>)) @@
   (F("fc")  :> File(<<TkStr("i"), TkP("="), TkStr("2")>> \o Ev("tC") \o <<NL(TkStr("fn")), TkP("("), TkStr("z"), TkP(")")>>)) @@
+  (* a file that makes the context parse a text into itself, then goes on *)
+  (F("fs")  :> File(<<TkStr("evs"), TkP("("), TkStr("tA"), TkP(")"), NL(TkStr("i")), TkP("="), TkStr("3")>>)) @@
   ("tA" :> Text(<<TkStr("s"), TkP("="), TkStr("a")>>)) @@
   ("tB" :> Text(<<TkStr("i"), TkP("="), TkStr("5")>> \o Inc("none"))) @@
   ("tC" :> Text(<<TkStr("fn"), TkP("("), TkStr("p"), TkP(","), TkStr("q"), TkP(")")>>)) @@
   ("tD" :> Text(Inc("f1") \o <<NL(TkStr("s")), TkP("="), TkStr("n")>>)) @@
   ("tE" :> Text(<<TkStr("s"), TkP("="), TkP("=")>>))
 
-Names == {F("f1"), F("fb"), F("fd"), F("fc"), "tA", "tB", "tC", "tD", "tE"}
+Names == {F("f1"), F("fb"), F("fd"), F("fc"), F("fs"), "tA", "tB", "tC", "tD", "tE"}
 
 Alphabet ==
-  {TkStr("include"), TkStr("ev"), TkStr("fn"), TkP("("), TkP(")"), TkP(","), TkStr("i"), TkP("="), TkStr("1")}
+  {TkStr("include"), TkStr("ev"), TkStr("evs"), TkStr("fn"), TkP("("), TkP(")"), TkP(","), TkStr("i"), TkP("="), TkStr("1")}
   \cup {TkStr(n) : n \in Names}
 
 Root0 == MkSec(Null, InitOpts(Schema))
@@ -59,8 +62,10 @@ FSquiet == [n \in DOMAIN FS |-> IF FS[n].kind = "text" THEN Text(<<>>) ELSE FS[n
 Quiet == PRun([Ps0 EXCEPT !.fs = FSquiet], Append(hist, TkEof))
 
 (* C08: a parse into another live context, started in the middle of this one, leaves no trace here *)
+(* (texts in which the context is made to parse into itself are outside these three statements) *)
+NoSelf == \A i \in 1..Len(hist) : hist[i].v \notin {"evs", F("fs")}
 P_C08_NestedLeavesNoTrace ==
-  (ps.status = "more" /\ Fin.status \in {"ok", "fail"}) =>
+  (NoSelf /\ ps.status = "more" /\ Fin.status \in {"ok", "fail"}) =>
      /\ Quiet.status = Fin.status
      /\ RootOf(Quiet) = RootOf(Fin)
      /\ Quiet.diags = Fin.diags
@@ -71,7 +76,7 @@ P_C13_GoesOn ==
 (* own calls is the log of the quiet run, with the nested calls inserted                        *)
 OwnCalls(log) == SelectSeq(log, LAMBDA e : ~(e.o = "fn" /\ e.vals = <<"p", "q">>))
 P_C14_OwnArguments ==
-  (ps.status = "more" /\ Fin.status \in {"ok", "fail"}) => OwnCalls(Fin.cblog) = OwnCalls(Quiet.cblog)
+  (NoSelf /\ ps.status = "more" /\ Fin.status \in {"ok", "fail"}) => OwnCalls(Fin.cblog) = OwnCalls(Quiet.cblog)
 
 Expected(p) ==
   [status |-> p.status, obs |-> ObsSec(RootOf(p)),
